@@ -10,7 +10,7 @@ PROPERTY_FILE = 'Properties/C09'
 MODEL_FILES = c03.MODEL_FILES
 GENERATED_DEPS = []
 COQ_HEADER = c03.COQ_HEADER
-CHECK_FN = c03.CHECK_FN
+CHECK_FN = 'i_check_perm'   # dict results compared without regard to entry order: Optional defaults are filled in in set order
 UNMODELLED_FN = c03.UNMODELLED_FN
 RULE = ('patterns of depth <= 4 over {literal, type, list, set/frozenset of literals, tuple, dict with literal / type / Optional(+default) / '
         'Required / M-comparison keys, catalogue Regex, catalogue predicates, And/Or/Not, M comparisons}; for each pattern a conforming '
